@@ -448,6 +448,9 @@ def kill(facts, written, immune=frozenset()):
 
 
 # --------------------------------------------------------------------- exploration
+STATS = {'explorations': 0, 'states_explored': 0, 'edges_pruned_infeasible': 0}
+
+
 class Result(object):
     def __init__(self, ex, start):
         self.ex = ex
@@ -595,6 +598,9 @@ class Explorer(object):
                     res.parent[(dst, nf)] = (nid, fs, label)
                 work.append((dst, nf, c2))
         res.n_states = count
+        STATS['explorations'] += 1
+        STATS['states_explored'] += count
+        STATS['edges_pruned_infeasible'] += res.edges_pruned
         return res
 
 
